@@ -640,29 +640,32 @@ type c15SJScen struct {
 	SenderQ    string    `json:"sender_q"`
 	MemberQ    string    `json:"member_q"`
 	Store      string    `json:"store"` // pseudo-ID rooms: "" (ok) | err
+	// "no": the joiner satisfies no allow condition of the (restricted) room and holds no invite -
+	// something HandleSendJoin is not told (finding F92); only the specification oracle reads it
+	Entitled string `json:"entitled"`
 }
 
 // what getMXIDMapping / validateMXIDMappingSignatures will find, asked of the same library pieces
-func c15MappingCfg(ev gmsl.PDU, v *c15Verifier) (ok bool, sigOK bool) {
+func c15MappingCfg(ev gmsl.PDU, v *c15Verifier) (ok, keyOK, sigOK bool, user string) {
 	var mc gmsl.MemberContent
 	if err := json.Unmarshal(ev.Content(), &mc); err != nil || mc.MXIDMapping == nil {
-		return false, false
+		return false, false, false, ""
 	}
-	msg, err := json.Marshal(*mc.MXIDMapping)
+	m := *mc.MXIDMapping
+	// MSC4014: the mapping is the one of the room key that sent the event, and the homeserver
+	// of the user it names has signed it (with a key valid under the room version's rule, the
+	// strict one for the pseudo-ID room version); other signatures neither help nor harm
+	keyOK = m.UserRoomKey == ev.SenderID()
+	u, err := spec.NewUserID(m.UserID, true)
 	if err != nil {
-		return true, false
+		return true, keyOK, false, m.UserID
 	}
-	for server := range mc.MXIDMapping.Signatures {
-		if v.verdict(string(server), msg) != nil {
-			return true, false
-		}
-		// the mapping is checked with the room version's validity rule, which is the strict one
-		// for the pseudo-ID room version
-		if !c15StrictlyValidAt(v.validity, ev.OriginServerTS()) {
-			return true, false
-		}
+	msg, err := json.Marshal(m)
+	if err != nil {
+		return true, keyOK, false, m.UserID
 	}
-	return true, true
+	sigOK = v.verdict(string(u.Domain()), msg) == nil && c15StrictlyValidAt(v.validity, ev.OriginServerTS())
+	return true, keyOK, sigOK, m.UserID
 }
 
 func c15SendJoin(args [][]byte) ([][]byte, []byte) {
@@ -713,7 +716,8 @@ func c15SendJoin(args [][]byte) ([][]byte, []byte) {
 	}
 
 	cfg := c15Obj{"version": s.Ver, "req_room": c15ReqRoom, "origin": s.Origin, "local": "local",
-		"key_id": string(c15KeyID), "mapping_ok": true, "mapping_sig_ok": true, "store_ok": s.Store != "err",
+		"key_id": string(c15KeyID), "mapping_ok": true, "mapping_key_ok": true, "mapping_sig_ok": true, "store_ok": s.Store != "err",
+		"joiner_entitled": s.Entitled != "no",
 		"redact_ok": true, "member_q": c15MemberCfg(s.MemberQ), "via_domain": "err"}
 	reqEventID := s.ReqEventID
 	// independent parse for the record
@@ -735,7 +739,13 @@ func c15SendJoin(args [][]byte) ([][]byte, []byte) {
 		}
 		cfg["sender_q"] = sq.cfg(string(parsed.SenderID()))
 		if ver == gmsl.RoomVersionPseudoIDs {
-			cfg["mapping_ok"], cfg["mapping_sig_ok"] = c15MappingCfg(parsed, verifier)
+			var mappedUser string
+			cfg["mapping_ok"], cfg["mapping_key_ok"], cfg["mapping_sig_ok"], mappedUser = c15MappingCfg(parsed, verifier)
+			// in pseudo-ID rooms the sender's user is the one the validated mapping names
+			cfg["sender_q"] = "err"
+			if u, uerr := spec.NewUserID(mappedUser, true); uerr == nil {
+				cfg["sender_q"] = c15Obj{"domain": string(u.Domain())}
+			}
 		}
 		dom := ""
 		if d, ok := cfg["sender_q"].(c15Obj); ok {
@@ -935,6 +945,11 @@ func c15Invite(args [][]byte) ([][]byte, []byte) {
 	out := c15Class(herr) + "\n" + log.String()
 	if herr == nil {
 		out += "\nalready_joined=0\n" + c15CheckedEvent(buildVer, res.JSON(), "local", lpk)
+	} else if !s.Ev.LocalSig {
+		// a refused invite must leave the event that was handed in as it was
+		if ids, lerr := gmsl.ListKeyIDs("local", ev.JSON()); lerr == nil && len(ids) > 0 {
+			out += "\nINPUT-EVENT-COUNTER-SIGNED-ALTHOUGH-REFUSED"
+		}
 	}
 	return [][]byte{args[0], c15JSON(cfg), evText}, []byte(out)
 }
@@ -1123,6 +1138,8 @@ func genC15SendJoin(c *Ctx) {
 		{"content twice: foreign via first", func(s *c15SJScen) {
 			s.Ev.TopFirst = map[string]string{"content": `{"join_authorised_via_users_server":"@auth:elsewhere","membership":"join"}`}
 		}},
+		{"restricted join via a local user, joiner entitled nowhere", func(s *c15SJScen) { s.Ev.Via = "@auth:local"; s.Entitled = "no" }},
+		{"plain join, joiner entitled nowhere", func(s *c15SJScen) { s.Entitled = "no" }},
 		{"mapping names another key", func(s *c15SJScen) { s.Ev.MappingKey = "other" }},
 		{"signed by the mapping key only", func(s *c15SJScen) { s.Ev.Signers = "mapping" }},
 		{"signed by sender and mapping key", func(s *c15SJScen) { s.Ev.Signers = "both" }},
